@@ -2,6 +2,13 @@
 """Rebuild known_findings.json's "findings" list from props/<id>/findings.json of the registered (ready) properties.
 The "fixed" list and comment are preserved. Run by the orchestrator at registration time, never by a check."""
 import json, os
+
+def atomic_dump(obj, path):
+    tmp = path + ".tmp%d" % os.getpid()
+    with open(tmp, "w") as f:
+        json.dump(obj, f, indent=1)
+    os.replace(tmp, path)
+
 ROOT = os.path.dirname(os.path.dirname(os.path.abspath(__file__)))
 kf = json.load(open(os.path.join(ROOT, "known_findings.json")))
 out = []
